@@ -20,7 +20,12 @@ import Chrono.Extracted.SpecTable
 import Chrono.Extracted.DocTable
 import Chrono.Proofs.StrftimeDocL
 import Chrono.Proofs.StrftimeAppendL
+import Chrono.Proofs.StrftimeNoRfcL
+import Chrono.Proofs.StrftimeTextL
+import Chrono.Proofs.StrftimeHeadroomL
+import Chrono.Proofs.ZonedDateL
 import Chrono.Model.ParseFrom
+import Chrono.Model.FormatUtc
 
 namespace Chrono.Props.C12
 open Chrono Chrono.M Chrono.M.Format Chrono.M.Strftime Chrono.Spec Chrono.Spec.Strftime Chrono.Extracted
@@ -701,6 +706,227 @@ example :
     items (str "%é") = [Item.error] ∧ items (str "%-é") = [Item.error] ∧ items (str "%.3x") = [Item.error] ∧
     Item.error ∈ items (str "%Y%m%0Z") ∧ specTable 81 = none ∧
     formatItems (some (dateOfYo 2001 12)) (some ⟨2099, 0⟩) none (items (str "%Y%m%-D")) = none := by
+  decide +kernel
+
+
+/-! ### round 3: arbitrary format strings -/
+
+/-- **`StrftimeItems` never yields the RFC 2822 item** — for EVERY format string (any bytes, also
+malformed specifiers and ill-formed UTF-8), strict (`StrftimeItems::new`, the mode of every `format`
+method) and lenient: proved from the model of `parse_next_item` (every arm of the specifier table, the
+`z : . 3 6 9` arms, the padding rewrite, the error path, the text arms; `Fixed::RFC2822` is only written
+by `to_rfc2822`).  This is the hypothesis `hf` of `entry_points_ok`, now discharged for arbitrary
+strings. -/
+theorem strftime_never_rfc2822 (fmt : List Nat) :
+    Item.fixed .rfc2822 ∉ items fmt ∧ Item.fixed .rfc2822 ∉ itemsLenient fmt ∧
+    (∀ (l : Bool) (s : List Nat) r, parse_next_item l s = some r →
+      r.2.1 ≠ Item.fixed .rfc2822 ∧ Item.fixed .rfc2822 ∉ r.2.2) := by
+  refine ⟨StrftimeNoRfc.no_rfc2822 false _ fmt, StrftimeNoRfc.no_rfc2822 true _ fmt, fun l s r h => ?_⟩
+  obtain ⟨h1, h2⟩ := StrftimeNoRfc.parse_next_item_ok l s r h
+  refine ⟨(StrftimeNoRfc.okB_iff _).mp h1, fun hm => ?_⟩
+  have := List.all_eq_true.mp h2 _ hm
+  cases this
+
+/-- **the entry points on ARBITRARY format strings**: `entry_points_ok` without its hypothesis on the
+item list — for every byte string `fmt` whatsoever (unknown specifiers included: then `renderItemsOn`
+is `none` and formatting fails) `value.format(fmt)` of a `NaiveDate`, `NaiveTime`, `NaiveDateTime`,
+`DateTime` is the concatenation of the documented item texts on the views the type has, or
+`Err(fmt::Error)`; never a panic, never other text -/
+theorem entry_points_any_string (fmt : List Nat)
+    (Y : Int) (o : Nat) (hY : MIN_YEAR ≤ Y ∧ Y ≤ MAX_YEAR) (ho : 1 ≤ o ∧ o ≤ yearLen Y) (t : Time) (ht : TValid t)
+    (off : Int) (hoff : -86400 < off ∧ off < 86400) :
+    ParseFrom.format (.date (dateOfYo Y o)) fmt = (renderItemsOn dateViews (items fmt) Y o t off).elim werr wok ∧
+    ParseFrom.format (.time t) fmt = (renderItemsOn timeViews (items fmt) Y o t off).elim werr wok ∧
+    ParseFrom.format (.naive ⟨dateOfYo Y o, t⟩) fmt = (renderItemsOn naiveViews (items fmt) Y o t off).elim werr wok ∧
+    (∀ z : Zoned, z.overflowing_naive_local = .ok ⟨dateOfYo Y o, t⟩ → z.off = off →
+      ParseFrom.format (.zoned z) fmt = (renderItemsOn zonedViews (items fmt) Y o t off).elim werr wok) :=
+  entry_points_ok fmt (strftime_never_rfc2822 fmt).1 Y o hY ho t ht off hoff
+
+/-- **format strings built from the documented specifiers, literal text and white space in any
+order** (the property's "arbitrary format strings built from them"): a format string given as a list of
+segments `(text, specifier)` — `text` any `%`-free run of well-formed UTF-8 (literal characters and white
+space mixed, any Unicode, possibly empty), `specifier` a complete documented specifier text (`specTexts`,
+125 strings: `%` + a row of the table or `%` + padding modifier + numeric row) — followed by trailing
+`%`-free text `lit`:
+(1) the tokenizer cuts it segment by segment: the items of each text run, then the items of the
+    specifier (the run scanners `litSpan` / `wsSpan` stop at the `%`, the specifier reader consumes
+    exactly the specifier);
+(2) the formatted text is, for every value, each text run copied UNCHANGED followed by the text of its
+    specifier (given by `specifier_ok` / `specifier_pad_ok` / `composite_eq_expansion`), then `lit`
+    unchanged — with the same failure and the same panic behaviour (`W.seq`);
+(3) no item is `Item::Error` and none is the RFC 2822 item, so `entry_points_ok` applies.
+Well-formedness of the text runs is the only hypothesis beyond the grammar (a Rust `&str` cut at the
+ASCII byte `%` always satisfies it); it is needed: after a stray lead byte the literal scanner would
+step over the `%`.  Supersedes `format_string_partial` (text only after the last specifier). -/
+theorem format_string_ok (segs : List (List Nat × List Nat)) (lit : List Nat)
+    (hs : ∀ p ∈ segs, (∀ b ∈ p.1, b ≠ 37) ∧ Chrono.M.Tz.validUtf8 p.1 = true ∧ p.2 ∈ specTexts)
+    (hl : ∀ b ∈ lit, b ≠ 37) :
+    items ((segs.map fun p => p.1 ++ p.2).flatten ++ lit) =
+      (segs.map fun p => items p.1 ++ items p.2).flatten ++ items lit ∧
+    (∀ d t off, formatItemsR d t off (items ((segs.map fun p => p.1 ++ p.2).flatten ++ lit)) =
+      segs.foldr (fun p acc => (wok p.1).seq ((formatItemsR d t off (items p.2)).seq acc)) (wok lit)) ∧
+    Item.error ∉ items ((segs.map fun p => p.1 ++ p.2).flatten ++ lit) ∧
+    Item.fixed .rfc2822 ∉ items ((segs.map fun p => p.1 ++ p.2).flatten ++ lit) := by
+  have h1 := StrftimeText.items_segments segs hs lit
+  have hcopy : ∀ (s : List Nat), (∀ b ∈ s, b ≠ 37) → ∀ d t off, formatItemsR d t off (items s) = wok s := by
+    intro s hs d t off
+    unfold items
+    exact FormatL.literal_copied_aux false d t off _ s (by omega) hs
+  refine ⟨h1, fun d t off => ?_, ?_, (strftime_never_rfc2822 _).1⟩
+  · rw [h1]
+    clear h1
+    induction segs with
+    | nil => simpa using hcopy lit hl d t off
+    | cons p rest ih =>
+      simp only [List.map_cons, List.flatten_cons, List.append_assoc, List.foldr_cons]
+      rw [FormatL.formatItemsR_append, FormatL.formatItemsR_append, hcopy p.1 (hs p (by simp)).1,
+        ih (fun x hx => hs x (List.mem_cons_of_mem _ hx))]
+  · rw [h1]
+    have hne : ∀ (s : List Nat), (∀ b ∈ s, b ≠ 37) → Item.error ∉ items s := by
+      intro s hs hm
+      have h := hcopy s hs none none none
+      have := FormatL.formatItems_error none none none _ hm
+      unfold formatItems at this
+      rw [h] at this
+      cases this
+    have key : ∀ a ∈ StrftimeAppend.specTextsLit, Item.error ∉ items a := by decide +kernel
+    intro hm
+    rw [List.mem_append, List.mem_flatten] at hm
+    rcases hm with ⟨l, hl1, hl2⟩ | hm
+    · rw [List.mem_map] at hl1
+      obtain ⟨p, hp, rfl⟩ := hl1
+      rw [List.mem_append] at hl2
+      rcases hl2 with h | h
+      · exact hne p.1 (hs p hp).1 h
+      · exact key p.2 (by rw [← StrftimeAppend.specTexts_eq]; exact (hs p hp).2.2) h
+    · exact hne lit hl hm
+
+/-- non-vacuity of `format_string_ok`: `%Y-%m-%d` (literal `-` between specifiers), the documentation's
+`%d/%m/%Y %H:%M`, and a string with Unicode text and mixed white space between specifiers (space, `é` =
+C3 A9, U+3000 = E3 80 80, tab, ` x `) are in the grammar; the text is the concatenation -/
+example :
+    let u : List Nat := [32, 195, 169, 227, 128, 128, 9, 32, 120, 32]
+    let segs : List (List Nat × List Nat) :=
+      [([], str "%Y"), (str "-", str "%m"), (str "-", str "%d"), (u, str "%H"), (str ":", str "%-M")]
+    (∀ p ∈ segs, (∀ b ∈ p.1, b ≠ 37) ∧ Chrono.M.Tz.validUtf8 p.1 = true ∧ p.2 ∈ specTexts) ∧
+    (segs.map fun p => p.1 ++ p.2).flatten ++ str " h" = str "%Y-%m-%d" ++ u ++ str "%H:%-M h" ∧
+    formatItems (some (dateOfYo 2001 12)) (some ⟨2099, 0⟩) none (items (str "%Y-%m-%d" ++ u ++ str "%H:%-M h")) =
+      some (str "2001-01-12" ++ u ++ str "00:34 h") ∧
+    items (str "%d" ++ u ++ str "%m") = [.numeric .day .zero, .space [32], .literal [195, 169], .space [227, 128, 128, 9, 32],
+      .literal [120], .space [32], .numeric .month .zero] ∧
+    items (str "%d/%m/%Y %H:%M") = [.numeric .day .zero, .literal [47], .numeric .month .zero, .literal [47],
+      .numeric .year .zero, .space [32], .numeric .hour .zero, .literal [58], .numeric .minute .zero] ∧
+    Item.fixed .rfc2822 ∉ items (str "%Q%") ∧
+    -- ill-formed text: after the stray lead byte C3 the literal scanner steps over the `%`
+    items ([195] ++ str "%d") = [.literal [195, 37, 100]] := by
+  decide +kernel
+
+
+/-! ### round 3: every wall clock a `DateTime` can have, and `DateTime<Utc>` -/
+
+/-- **the two headroom wall-clock dates**: a `DateTime` whose wall clock (`overflowing_naive_local`)
+lies one day outside the range — `Date.BEFORE_MIN` = -262144-12-31 for a value within |offset| of
+`MIN_UTC` viewed at a negative offset, `Date.AFTER_MAX` = +262143-01-01 near `MAX_UTC` at a positive
+offset — is formatted, for EVERY format string, as the calendar's own day 366 of year `MIN_YEAR − 1`
+resp. day 1 of year `MAX_YEAR + 1`: the same `renderItemsOn` as inside the range (all numeric items
+with all paddings, names, `%s`, `%+`, offsets), never a panic.  The date-only items are settled by
+kernel evaluation against the Spec calendar (`StrftimeHeadroom.head_eval`; C04's
+`format_headroom_dates` pins the same texts as literals for 22 specifiers), `%s` and `%+` by the
+generic arguments (no `i64` overflow: |day number| ≤ 95 746 130). -/
+theorem entry_points_headroom (fmt : List Nat) (t : Time) (ht : TValid t) (z : Zoned)
+    (hoff : -86400 < z.off ∧ z.off < 86400) :
+    (z.overflowing_naive_local = .ok ⟨Date.BEFORE_MIN, t⟩ →
+      ParseFrom.format (.zoned z) fmt =
+        (renderItemsOn zonedViews (items fmt) (MIN_YEAR - 1) 366 t z.off).elim werr wok) ∧
+    (z.overflowing_naive_local = .ok ⟨Date.AFTER_MAX, t⟩ →
+      ParseFrom.format (.zoned z) fmt =
+        (renderItemsOn zonedViews (items fmt) (MAX_YEAR + 1) 1 t z.off).elim werr wok) := by
+  have hf := (strftime_never_rfc2822 fmt).1
+  constructor
+  · intro hl
+    simp only [ParseFrom.format, formatItemsOf, hl, W.ofRes]
+    rw [StrftimeHeadroom.items_full _ _ _ StrftimeHeadroom.dateOk_before_min t ht z.off hoff _ hf,
+      StrftimeDoc.toW_elim]
+  · intro hl
+    simp only [ParseFrom.format, formatItemsOf, hl, W.ofRes]
+    rw [StrftimeHeadroom.items_full _ _ _ StrftimeHeadroom.dateOk_after_max t ht z.off hoff _ hf,
+      StrftimeDoc.toW_elim]
+
+/-- **`DateTime::format` is total and documented on EVERY well-formed value and EVERY format string**:
+for any `DateTime<FixedOffset>` satisfying the type's invariant (`ZInv`: UTC reading in the range, valid
+time, |offset| < 86400) the wall clock exists, is a valid time on a date `(Y, o)` that is a date of the
+range or one of the two headroom days, and `format(fmt)` is the concatenation of the documented item
+texts for that date, time and offset — or `Err(fmt::Error)` exactly when `renderItemsOn` is `none`
+(unknown specifier, parsing-only `%#z`); never a panic.  No hypothesis on `fmt`, none on the wall
+clock. -/
+theorem datetime_format_total (z : Zoned) (hz : ZInv z) (fmt : List Nat) :
+    ∃ (l : NaiveDT) (Y : Int) (o : Nat), z.overflowing_naive_local = .ok l ∧ TValid l.time ∧
+      ((MIN_YEAR ≤ Y ∧ Y ≤ MAX_YEAR) ∧ (1 ≤ o ∧ o ≤ yearLen Y) ∧ l.date = dateOfYo Y o ∨
+       l.date = Date.BEFORE_MIN ∧ Y = MIN_YEAR - 1 ∧ o = 366 ∨
+       l.date = Date.AFTER_MAX ∧ Y = MAX_YEAR + 1 ∧ o = 1) ∧
+      ParseFrom.format (.zoned z) fmt = (renderItemsOn zonedViews (items fmt) Y o l.time z.off).elim werr wok := by
+  obtain ⟨l, h1, h2, _⟩ := Proofs.naive_local_spec z hz
+  obtain ⟨_, _, _, hho, _⟩ := Proofs.ZN.wall_date_cases z hz l h1
+  obtain ⟨ld, lt⟩ := l
+  have ht : TValid lt := h2.2
+  have hoff : -86400 < z.off ∧ z.off < 86400 := hz.2
+  rcases hho with hin | hb | ha
+  · obtain ⟨o, he, _, hy1, hy2, ho1, ho2⟩ := Proofs.Ts.dateInv_repr ld hin
+    try dsimp only at he
+    refine ⟨⟨ld, lt⟩, ld.year, o, h1, ht, Or.inl ⟨⟨hy1, hy2⟩, ⟨ho1, ho2⟩, he⟩, ?_⟩
+    exact (entry_points_any_string fmt ld.year o ⟨hy1, hy2⟩ ⟨ho1, ho2⟩ lt ht z.off hoff).2.2.2 z
+      (by rw [h1, ← he]) rfl
+  · try dsimp only at hb
+    subst hb
+    exact ⟨_, _, _, h1, ht, Or.inr (Or.inl ⟨rfl, rfl, rfl⟩), (entry_points_headroom fmt lt ht z hoff).1 h1⟩
+  · try dsimp only at ha
+    subst ha
+    exact ⟨_, _, _, h1, ht, Or.inr (Or.inr ⟨rfl, rfl, rfl⟩), (entry_points_headroom fmt lt ht z hoff).2 h1⟩
+
+/-- **`DateTime<Utc>`: `%Z` prints `UTC`** (`ParseFrom.formatUtc`: the name handed to the formatter is
+`Utc`'s `Display`, the offset is 0).  For every date of the range, every time and EVERY format string
+the text is `renderItemsNamed utcName`: `%Z` items print the three bytes `UTC`, every other item prints
+what it prints for the offset `+00:00` (`%z` = `+0000`, `%:z` = `+00:00`, `%s` from UTC, `%+` with
+`+00:00`); the wall clock of a `DateTime<Utc>` is its UTC reading (never a headroom day).
+Note: the documentation row of `%Z` says "Identical to `%:z` when formatting" (footnote 8: "only prints
+the offset"); that sentence describes `FixedOffset` (`specifier_ok`: `zoneText`), for `Utc` the code
+prints the name `UTC`, not `+00:00` — stated here as what it is. -/
+theorem utc_format_ok (fmt : List Nat) (t : Time) (ht : TValid t) :
+    (∀ (Y : Int) (o : Nat), MIN_YEAR ≤ Y ∧ Y ≤ MAX_YEAR → 1 ≤ o ∧ o ≤ yearLen Y →
+      ParseFrom.formatUtc ⟨dateOfYo Y o, t⟩ fmt = (renderItemsNamed utcName (items fmt) Y o t 0).elim werr wok) ∧
+    (∀ d : Date, ParseFrom.formatUtc ⟨d, t⟩ (str "%Z") = wok (str "UTC")) ∧
+    (∀ d : Date, Zoned.overflowing_naive_local ⟨⟨d, t⟩, 0⟩ = .ok ⟨d, t⟩) ∧
+    TextForms.utc_display = utcName ∧ utcName = str "UTC" := by
+  refine ⟨fun Y o hY ho => ?_, fun d => ?_, fun d => StrftimeHeadroom.utc_wall d t ht, by decide, by decide⟩
+  · unfold ParseFrom.formatUtc
+    rw [StrftimeHeadroom.utc_wall _ t ht]
+    simp only [W.ofRes]
+    rw [StrftimeHeadroom.items_named _ _ _ (StrftimeHeadroom.dateOk_range Y o hY ho) t ht 0 (by omega) _ _
+      (strftime_never_rfc2822 fmt).1, StrftimeDoc.toW_elim]
+    rfl
+  · unfold ParseFrom.formatUtc
+    rw [StrftimeHeadroom.utc_wall _ t ht]
+    have : items (str "%Z") = [.fixed .timezoneName] := by decide
+    simp only [W.ofRes, this]
+    rfl
+
+/-- non-vacuity of the round-3 entry-point families: `MAX_UTC` viewed at +01:00 reads
++262143-01-01T00:59:59 (the input of the fixed findings F04/F06), `MIN_UTC` at −00:00:01 reads
+-262144-12-31T23:59:59; a `DateTime<Utc>` prints `UTC` for `%Z` where the same instant at
+`FixedOffset` 0 prints `+00:00` -/
+example :
+    ZInv ⟨NaiveDT.MAX, 3600⟩ ∧
+    Zoned.overflowing_naive_local ⟨NaiveDT.MAX, 3600⟩ = .ok ⟨Date.AFTER_MAX, ⟨3599, 999999999⟩⟩ ∧
+    ParseFrom.format (.zoned ⟨NaiveDT.MAX, 3600⟩) (str "%Y-%m-%d %j %a %U %G-W%V %_C|%y %H:%M:%S %z") =
+      wok (str "+262143-01-01 001 Tue 00 +262143-W01 2621|43 00:59:59 +0100") ∧
+    renderItemsOn zonedViews (items (str "%F %A %-d %s")) (MAX_YEAR + 1) 1 ⟨3599, 0⟩ 3600 =
+      some (str "+262143-01-01 Tuesday 1 8210266876799") ∧
+    Zoned.overflowing_naive_local ⟨NaiveDT.MIN, -1⟩ = .ok ⟨Date.BEFORE_MIN, ⟨86399, 0⟩⟩ ∧
+    ParseFrom.format (.zoned ⟨NaiveDT.MIN, -1⟩) (str "%F %j %A %W %G %g %C %Z") =
+      wok (str "-262144-12-31 366 Wednesday 52 -262143 57 -2622 -00:00:01") ∧
+    ParseFrom.formatUtc ⟨dateOfYo 2001 189, ⟨2099, 0⟩⟩ (str "%F %T %Z %z %:z") =
+      wok (str "2001-07-08 00:34:59 UTC +0000 +00:00") ∧
+    ParseFrom.format (.zoned ⟨⟨dateOfYo 2001 189, ⟨2099, 0⟩⟩, 0⟩) (str "%Z") = wok (str "+00:00") := by
   decide +kernel
 
 
